@@ -25,7 +25,7 @@ RULE = (
     "that changes the displayed rows and leaves; or jumps to an invisible node.  Distinct = SHA-1."
 )
 ASSUMPTIONS = c16.ASSUMPTIONS
-BUDGET = {"quick": {"examples": 8000}, "thorough": {"examples": 150000, "deadline_s": 1500}}
+BUDGET = {"quick": {"examples": 8000}, "thorough": {"examples": 150000, "deadline_s": 900}}
 
 CFG = gen.cfg(max_syms=12, p_menu=26, p_menu_vis=55, p_menuconfig=25, p_after_dep=40, p_choice=14, p_range=60, p_range_sym=45, p_set=22, p_select=25, p_warning=12, p_prompt=88, p_comment=12, p_keep_empty_menu=60)
 WEIGHTS = [
